@@ -849,16 +849,14 @@ func runC09(h *Harness) {
 			check("lookup after shutdown", rv2, err2, pv2)
 		}
 	case "store-missing-after-failed-swap":
-		// make the directory swap of the next refresh fail at its second rename
+		// make the directory swap of the next refresh fail at its second rename, for every CRL of the repository (which
+		// of them is refreshed first is none of the cell's business): moving the previous database aside succeeds,
+		// moving anything to a final name - the new database in, the previous one back - fails
 		loc.Cur = 1
 		base := len(h.Disk.OsLog)
-		seen := 0
 		h.Disk.OsFault = func(nn int, op string, paths []string, node string) error {
-			if nn > base && op == "rename" {
-				seen++
-				if seen >= 2 {
-					return ErrIO
-				}
+			if nn > base && op == "rename" && len(paths) == 2 && !isTmpName(filepath.Base(paths[1])) {
+				return ErrIO
 			}
 			return nil
 		}
